@@ -598,6 +598,29 @@ fn run_validity(r: &ValRow, obs: &mut Obs) -> CheckResult {
         ensure!(buf == exp, "Validity::encode({:?}, {:?}) = {}, reference {}", cb, ca, show(&buf), show(&exp));
         let d = Mode::Der.decode(&exp[..], Validity::take_from).map_err(|e| e.to_string());
         ensure!(d == Ok(v), "Validity::take_from({}) = {:?}, expected {:?}", show(&exp), d, v);
+        // A window written by someone else may use the other time form for either end
+        // (GeneralizedTime for any year, UTCTime where the year has one): RFC 5280
+        // 4.1.2.5 has relying parties process both. The fixed-width form names the
+        // same instants whichever type carries it.
+        for (ub, ua) in [(false, false), (true, false), (false, true), (true, true)] {
+            if (ub && !utc_form(cb.y)) || (ua && !utc_form(ca.y)) || (ub == utc_form(cb.y) && ua == utc_form(ca.y)) {
+                continue;
+            }
+            let (eb, ea) = (ref_time(cb, ub), ref_time(ca, ua));
+            let mut alt = vec![0x30, (eb.len() + ea.len()) as u8];
+            alt.extend_from_slice(&eb);
+            alt.extend_from_slice(&ea);
+            for mode in [Mode::Der, Mode::Ber] {
+                let d = mode.decode(&alt[..], Validity::take_from).map_err(|e| e.to_string());
+                if d != Ok(v) {
+                    return Err(Fail::sig("validity-other-time-form", format!(
+                        "Validity::take_from({}) in {:?} mode = {:?}, expected {:?} (notBefore as {}, notAfter as {})",
+                        show(&alt), mode, d, v, if ub { "UTCTime" } else { "GeneralizedTime" }, if ua { "UTCTime" } else { "GeneralizedTime" }
+                    )));
+                }
+            }
+            evals += 1;
+        }
     }
     // verify_at
     let nows: Vec<i64> = match (r.now, r.other) {
